@@ -98,7 +98,20 @@ def load_engine(prop):
 
 
 def _check_tree():
-    import atomman
+    # numericalunits draws random working units when it is first imported (random.seed() from the OS).  On the pinned
+    # tree atomman's own import replaces them by a named choice built from a clean SI table, so the draw is invisible; a
+    # change to the library that makes a later table depend on the earlier one would let that draw leak into every run
+    # and break replay.  The simulator owns this seam too: the import-time draw is seeded.
+    import random as _random
+    _orig_seed = _random.seed
+
+    def _seed(a=None, version=2):
+        return _orig_seed(20260928 if a is None else a, version)
+    _random.seed = _seed
+    try:
+        import atomman
+    finally:
+        _random.seed = _orig_seed
     tree_dir = os.environ.get('VERIF_TREE')
     here = os.path.dirname(os.path.dirname(os.path.abspath(atomman.__file__)))
     if tree_dir and os.path.realpath(here) != os.path.realpath(tree_dir):
